@@ -7,6 +7,8 @@ import (
 	"bufio"
 	"fmt"
 	"io"
+	"math"
+	"math/big"
 	"os"
 	"os/exec"
 	"strconv"
@@ -460,8 +462,62 @@ func parseValues(txt string, m Model) {
 			v, _ := strconv.ParseUint(f[0], 10, 64)
 			m[name] = v
 		default:
-			// Int / Real values are kept as text by the caller when needed
-			m[name] = 0
+			// Int / Real values: integers as two's complement, reals additionally as float64 bits under "name@f64"
+			if r, ok := parseNumeral(val); ok {
+				if r.IsInt() {
+					m[name] = new(big.Int).And(r.Num(), new(big.Int).SetUint64(^uint64(0))).Uint64()
+					if r.Sign() < 0 {
+						m[name] = uint64(r.Num().Int64())
+					}
+				}
+				f, _ := r.Float64()
+				m[name+"@f64"] = math.Float64bits(f)
+			} else {
+				m[name] = 0
+			}
 		}
 	}
+}
+
+// parseNumeral parses SMT-LIB Int/Real values: 12, 1.5, (- 3), (/ 1.0 3.0), (- (/ 1 3)).
+func parseNumeral(v string) (*big.Rat, bool) {
+	v = strings.TrimSpace(v)
+	if strings.HasPrefix(v, "(") && strings.HasSuffix(v, ")") {
+		in := strings.TrimSpace(v[1 : len(v)-1])
+		switch {
+		case strings.HasPrefix(in, "- "):
+			r, ok := parseNumeral(in[2:])
+			if !ok {
+				return nil, false
+			}
+			return r.Neg(r), true
+		case strings.HasPrefix(in, "/ "):
+			rest := strings.TrimSpace(in[2:])
+			// split into two s-expressions
+			depth, cut := 0, -1
+			for i, ch := range rest {
+				if ch == '(' {
+					depth++
+				} else if ch == ')' {
+					depth--
+				} else if ch == ' ' && depth == 0 {
+					cut = i
+					break
+				}
+			}
+			if cut < 0 {
+				return nil, false
+			}
+			a, ok1 := parseNumeral(rest[:cut])
+			b, ok2 := parseNumeral(rest[cut+1:])
+			if !ok1 || !ok2 || b.Sign() == 0 {
+				return nil, false
+			}
+			return a.Quo(a, b), true
+		}
+		return nil, false
+	}
+	v = strings.TrimSuffix(v, "?")
+	r, ok := new(big.Rat).SetString(v)
+	return r, ok
 }
